@@ -3,14 +3,38 @@
 EXTENDS TrackerCore
 
 (***************************************************************************)
-(* validation of the real object's transitions                             *)
+(* validation of the real object's transitions, through what the state     *)
+(* MEANS (C06 speaks of waits and releases, not of lists):                 *)
+(*   wait : dependency -> bag of waiters (dependencies somebody waits for) *)
+(*   rel  : the waited-for dependencies that are met and not yet drained   *)
+(* A release may hand out ANY waiter of ANY releasable dependency; met     *)
+(* names nobody waits for, names met twice and emptied lists do not count. *)
 (***************************************************************************)
 Trans == TLCEval(JsonDeserialize(IOEnv.HV_TRK_FILE)).trans
+SeqToSet(q) == {q[j] : j \in 1..Len(q)}
+NonEmpty(U) == {d \in DOMAIN U : U[d] # <<>>}
+BagOf(q) == [x \in SeqToSet(q) |-> Cardinality({j \in 1..Len(q) : q[j] = x})]
+Abs(st) == [wait |-> [d \in NonEmpty(st.unmet) |-> BagOf(st.unmet[d])],
+            rel  |-> SeqToSet(st.met) \cap NonEmpty(st.unmet)]
+TakeOne(a, d, w) ==
+  LET n == a.wait[d][w]
+      bag == IF n > 1 THEN [a.wait[d] EXCEPT ![w] = n - 1] ELSE [x \in DOMAIN a.wait[d] \ {w} |-> a.wait[d][x]]
+  IN IF DOMAIN bag = {} THEN [wait |-> [e \in DOMAIN a.wait \ {d} |-> a.wait[e]], rel |-> a.rel \ {d}]
+     ELSE [wait |-> [a.wait EXCEPT ![d] = bag], rel |-> a.rel]
+
+TransOk(x) ==
+  LET a == Abs(x.pre) b == Abs(x.post) IN
+  IF x.op.op = "next" THEN
+       IF a.rel = {} THEN x.ret = "STOP" /\ b = a
+       ELSE \E d \in a.rel : x.ret \in DOMAIN a.wait[d] /\ b = TakeOne(a, d, x.ret)
+  ELSE LET r == Step(x.pre, x.op) IN
+       /\ Abs(r.st) = b
+       /\ IF x.op.op = "has_met" THEN (a.rel # {} => x.ret = "True") /\ x.ret \in {"True", "False"}
+          ELSE x.ret = r.ret
+
 VARIABLE k
 VInit == k = 0
 VNext == /\ k < Len(Trans) /\ k' = k + 1
-         /\ LET x == Trans[k + 1]
-                r == Step(x.pre, x.op)
-            IN (r.st = x.post /\ r.ret = x.ret) \/ PrintT("TRK|" \o ToString(k + 1) \o "|")
+         /\ TransOk(Trans[k + 1]) \/ PrintT("TRK|" \o ToString(k + 1) \o "|")
 VSpec == VInit /\ [][VNext]_k
 =============================================================================
